@@ -102,6 +102,11 @@ func c05Searches(p *run.Part, tier string) []*seqx.Search {
 		return &seqx.Search{Part: p, Check: "bfs", Cfg: cfg, Alphabet: Alphabet(3, true), Depth: d, Prefix: Prefixes[prefix], PrefixID: prefix,
 			Deadline: dl, NeedPre: true, Nontrivial: forked,
 			OnTransition: func(w *seqx.World, pre *seqx.Pre, op seqx.Op, st *seqx.Step, c seqx.Case) {
+				if expectedDenial(w, pre, op, st) {
+					// a merge or append the destination's access policy must refuse: the log must stay as it was,
+					// and the property's oracle below applies to the unchanged log as to any other state
+					st = &seqx.Step{UID: -1}
+				}
 				if stepFailure(p, "bfs", op, st, c) {
 					return
 				}
@@ -109,7 +114,7 @@ func c05Searches(p *run.Part, tier string) []*seqx.Search {
 			}}
 	}
 	return []*seqx.Search{mk(CfgDef3, "", depth), mk(CfgHash3, "", depth-1), mk(CfgShared3, "", depth), mk(CfgSharedH, "", depth-1),
-		mk(CfgDef3, "+fork12", pd), mk(CfgDef3, "+tri4", pd)}
+		mk(CfgDef3, "+fork12", pd), mk(CfgDef3, "+tri4", pd), mkPolicy(mk, "denyB/default", depth)}
 }
 
 func init() {
